@@ -472,6 +472,7 @@ def C17(tier, seed):
     c = Check("C17", tier, seed)
     binp = build_harness(ALL)
     m_parts(c, binp, tier)
+    m_object(c, binp, tier, edges=False, hist=False, full=False, grown=True)    # into_parts / from_parts on every state of the grown containers
     m_subtags(c, binp, tier)
     m_locale(c, binp, tier, modes=("loc",), light=True)
     traces(c, binp, "hist", tier, quick_n=2000)
